@@ -203,6 +203,9 @@ func (x *hW) illegalStep(class int) {
 
 func HC10_Illegal() {
 	prof, capInc, relInc := hConfig2()
+	if vTier() == 1 {
+		vAssume(!(prof == 1 && capInc == 2)) // thorough: 3 of the 4 configurations (path budget)
+	}
 	x := hNew(prof, 6, capInc, relInc)
 	x.prefix([6]int{1, 3, 4, 6, 8, 9}[vChoice("prefix", 6)])
 	rounds := 1 + vTier()
